@@ -38,11 +38,12 @@ PROPS = {
                  "rsrvtoken", "dontfrag", "data", "xoraddr"],
         "alarms": ["cd-encode-shape", "cd-roundtrip", "cd-invalid-number-decoded", "cd-decode-accepts-bad",
                    "ischanneldata-disagrees", "attr-wrong-size-accepted", "attr-get-panics", "xoraddr-short-value-accepted",
-                   "xoraddr-roundtrip"],
+                   "xoraddr-roundtrip", "attr-get-stateful"],
         "rule": "H1 drives the real ChannelData/attribute codecs: all 65536 channel numbers (encode+decode and as raw headers), "
                 "payload lengths 0-64 + MTU and uint16 boundaries (thorough: ~all lengths), raw buffers for every header class x "
                 "declared/actual length relation, every attribute x raw values of length 0-1 exhaustively, length 2 sampled "
-                "(thorough: exhaustive), 3-64 random; every op line is replayed by the Lean model and compared; "
+                "(thorough: exhaustive), 3-64 random; every attribute is also decoded into a receiver that already holds another value (the model's decoders are functions "
+                "of the message: attr-get-stateful); every op line is replayed by the Lean model and compared; "
                 "distinct = distinct (op kind, outcome prefix) pairs",
         "trusted_base": H1_TB,
         "assumptions": ["XOR address decoding of wrong-sized values lives in the dependency pion/stun (finding F12)"],
